@@ -68,29 +68,36 @@ Definition exp_part (e : option expo) : list N :=
 
 Definition dot_part (hasdot : bool) (F : list N) : list N := if hasdot then c_dot :: F else [].
 
+Definition int32_ok (z : Z) : bool := ((-2147483648 <=? z) && (z <=? 2147483647))%Z.
+
 Lemma parse_int32_expo : forall s ds,
   ds_ok 10 ds = true ->
   let E := expo_value (Some (mkExpo false s ds)) in
-  (-2147483648 <= E <= 2147483647)%Z ->
-  parse_int32 (sign_chars s ++ ds_chars ds) = Some E.
+  parse_int32 (sign_chars s ++ ds_chars ds) = if int32_ok E then Some E else None.
 Proof.
-  intros s ds Hok E HR. pose proof (ds_chars_digits ds Hok) as HD.
+  intros s ds Hok E. pose proof (ds_chars_digits ds Hok) as HD.
   pose proof (ds_head_range ds Hok) as HH.
-  unfold parse_int32. unfold E, expo_value, chars_value in *.
+  unfold parse_int32, int32_ok. unfold E, expo_value, chars_value in *.
   destruct s as [[|]|]; cbn [sign_chars app].
   - change (c_minus =? c_minus) with true. cbv iota. unfold ds_chars at 1. rewrite HD.
     destruct (Z.ltb_spec (- Z.of_N (digits_value 10 (ds_chars ds) 0)) (-2147483648));
-    destruct (Z.ltb_spec 2147483647 (- Z.of_N (digits_value 10 (ds_chars ds) 0))); try lia. reflexivity.
+    destruct (Z.ltb_spec 2147483647 (- Z.of_N (digits_value 10 (ds_chars ds) 0)));
+    destruct (Z.leb_spec (-2147483648) (- Z.of_N (digits_value 10 (ds_chars ds) 0)));
+    destruct (Z.leb_spec (- Z.of_N (digits_value 10 (ds_chars ds) 0)) 2147483647); try lia; reflexivity.
   - change (c_plus =? c_minus) with false. change (c_plus =? c_plus) with true. cbv iota.
     unfold ds_chars at 1. rewrite HD.
     destruct (Z.ltb_spec (Z.of_N (digits_value 10 (ds_chars ds) 0)) (-2147483648));
-    destruct (Z.ltb_spec 2147483647 (Z.of_N (digits_value 10 (ds_chars ds) 0))); try lia. reflexivity.
+    destruct (Z.ltb_spec 2147483647 (Z.of_N (digits_value 10 (ds_chars ds) 0)));
+    destruct (Z.leb_spec (-2147483648) (Z.of_N (digits_value 10 (ds_chars ds) 0)));
+    destruct (Z.leb_spec (Z.of_N (digits_value 10 (ds_chars ds) 0)) 2147483647); try lia; reflexivity.
   - unfold ds_chars at 1.
     replace (ds_head ds =? c_minus) with false by (symmetry; apply N.eqb_neq; unfold c_minus; lia).
     replace (ds_head ds =? c_plus) with false by (symmetry; apply N.eqb_neq; unfold c_plus; lia).
     fold (ds_chars ds). rewrite HD.
     destruct (Z.ltb_spec (Z.of_N (digits_value 10 (ds_chars ds) 0)) (-2147483648));
-    destruct (Z.ltb_spec 2147483647 (Z.of_N (digits_value 10 (ds_chars ds) 0))); try lia. reflexivity.
+    destruct (Z.ltb_spec 2147483647 (Z.of_N (digits_value 10 (ds_chars ds) 0)));
+    destruct (Z.leb_spec (-2147483648) (Z.of_N (digits_value 10 (ds_chars ds) 0)));
+    destruct (Z.leb_spec (Z.of_N (digits_value 10 (ds_chars ds) 0)) 2147483647); try lia; reflexivity.
 Qed.
 
 Lemma expo_value_upper : forall u s ds, expo_value (Some (mkExpo u s ds)) = expo_value (Some (mkExpo false s ds)).
@@ -99,14 +106,17 @@ Proof. reflexivity. Qed.
 Lemma set_string_decimal : forall I F hasdot e,
   I <> [] -> forallb is_digit I = true -> forallb is_digit F = true -> expo_ok e = true ->
   (hasdot = false -> F = []) ->
-  (-2147483648 <= expo_value e <= 2147483647)%Z ->
   set_string (I ++ dot_part hasdot F ++ exp_part e) =
     let c := digits_value 10 (I ++ F) 0 in
-    DFin (mkDec false c
-            (set_exponent c ((match e with Some _ => [expo_value e] | None => [] end) ++
-                             (if hasdot then [(- Z.of_nat (length F))%Z] else [])))).
+    if int32_ok (expo_value e) then
+      match set_exponent c ((match e with Some _ => [expo_value e] | None => [] end) ++
+                            (if hasdot then [(- Z.of_nat (length F))%Z] else [])) with
+      | Some x => DFin (mkDec false c x)
+      | None => DNaN
+      end
+    else DNaN.
 Proof.
-  intros I F hasdot e HI DI DF He HF HR.
+  intros I F hasdot e HI DI DF He HF.
   destruct I as [|i0 I']; [contradiction|].
   assert (is_digit i0 = true) as Di0 by (cbn [forallb] in DI; apply andb_prop in DI; apply DI).
   assert (48 <= i0 <= 57) as Ri0 by (unfold is_digit in Di0; lia).
@@ -135,12 +145,15 @@ Proof.
   - (* with exponent *)
     rewrite split_at_notin by exact NoE.
     cbn [expo_ok] in He. rewrite expo_value_upper in *.
-    rewrite (parse_int32_expo s ds He HR). cbv iota beta. cbn [negb].
+    rewrite (parse_int32_expo s ds He). cbv zeta.
+    destruct (int32_ok (expo_value (Some (mkExpo false s ds)))); [|reflexivity].
+    cbv iota beta. cbn [negb].
     rewrite (SD tt). destruct hasdot.
     + rewrite DA. cbn [negb app]. reflexivity.
     + rewrite (HF eq_refl) in *. unfold dot_part. rewrite !app_nil_r. rewrite DI. cbn [negb app]. reflexivity.
   - (* no exponent *)
     rewrite app_nil_r. rewrite (split_at_none c_e) by exact NoE. cbv iota beta. cbn [negb].
+    change (int32_ok (expo_value None)) with true. cbv iota.
     rewrite (SD tt). destruct hasdot.
     + rewrite DA. cbn [negb app]. reflexivity.
     + rewrite (HF eq_refl) in *. unfold dot_part. rewrite !app_nil_r. rewrite DI. cbn [negb app]. reflexivity.
@@ -340,14 +353,11 @@ Proof.
         assert (eff_int (Some d) = [c_0]) as ->.
         { unfold eff_int, pre_int. rewrite Z, ET. reflexivity. }
         destruct chk; [|reflexivity].
-        (* the check inside scanNumber sees an empty buffer (NaN, accepted); the final
-           conversion of "0" is exact as well *)
-        assert (decimal_of (mkInfo [] 10 (Some m) false) = Some DNaN) as -> by reflexivity.
-        assert (exists r, decimal_of (mkInfo [c_0] 10 (Some m) false) = Some r) as (r & ->); [|reflexivity].
-        unfold decimal_of. cbn [i_base i_buf i_mul]. change (negb (10 =? 10)) with false. cbv iota.
-        assert (set_string [c_0] = DFin (mkDec false 0 0)) as -> by reflexivity.
-        assert (dmul (mkDec false 0 0) (mkDec false (mult_value m) 0) = mkDec false 0 0) as -> by reflexivity.
-        eexists. reflexivity.
+        (* the check inside scanNumber sees an empty buffer, which decimal() reads as "0",
+           exactly what the final conversion sees *)
+        assert (decimal_of (mkInfo [] 10 (Some m) false) = decimal_of (mkInfo [c_0] 10 (Some m) false)) as ->
+          by reflexivity.
+        reflexivity.
       * unfold ds_render at 1. cbn [app]. rewrite parse_start_digit by exact HR.
         change (ds_head d :: tail_render (ds_tail d) ++ mult_render m) with (ds_render d ++ mult_render m).
         rewrite scan_number_nonzero by (auto; apply mult_render_stops; exact Hm).
